@@ -68,6 +68,7 @@ type winWorld struct {
 	fd    *gossip.VerifHookFD
 	w     *winWatcher
 	peers []*gossip.VerifClusterState
+	mid   []gossip.VerifDelta // each peer's full delta as of the middle of its later writes
 }
 
 func buildWinWorld(p *winPlan) *winWorld {
@@ -86,8 +87,14 @@ func buildWinWorld(p *winPlan) *winWorld {
 		wd.s.UpdateLiveness(gossip.VerifSuspicionThreshold)
 	}
 	for i, ps := range wd.peers {
-		for _, wr := range p.late[i] {
+		for j, wr := range p.late[i] {
+			if j == (len(p.late[i])+1)/2 {
+				wd.mid = append(wd.mid, ps.LocalDelta())
+			}
 			applyWinWrite(ps, wr)
+		}
+		if len(wd.mid) == i {
+			wd.mid = append(wd.mid, ps.LocalDelta())
 		}
 		wd.fd.Set(ps.LocalNode().ID, float64(p.levels1[i]))
 	}
@@ -120,6 +127,11 @@ func (wd *winWorld) run(op string) {
 		var i int
 		fmt.Sscanf(op, "apply:%d", &i)
 		wd.s.ApplyDelta(wd.peers[i].LocalDelta())
+	case strings.HasPrefix(op, "applymid:"):
+		// an older delta of the peer, still in flight
+		var i int
+		fmt.Sscanf(op, "applymid:%d", &i)
+		wd.s.ApplyDelta(wd.mid[i])
 	case strings.HasPrefix(op, "applynew:"):
 		// what the peer would answer to the observer's own digest
 		var i int
@@ -147,17 +159,28 @@ func (wd *winWorld) view() string {
 		sort.Strings(es)
 		fmt.Fprintf(&b, "%s: version=%d left=%v unreachable=%v expiry-set=%v entries=%v\n", id, n.Version, n.Left, n.Unreachable, !n.Expiry.IsZero(), es)
 	}
-	// notifications per node, in order (the state visits nodes in map order, so the
-	// order between notifications about different nodes is not defined)
+	// notifications in order, separately for each node's membership events and for
+	// each of its keys: the state visits nodes, and a compaction's discarded keys, in
+	// map order, so the order between notifications about different nodes or
+	// different keys is not defined
 	wd.w.mu.Lock()
 	per := map[string][]string{}
 	for _, e := range wd.w.log {
 		f := strings.SplitN(e, " ", 3)
-		per[f[1]] = append(per[f[1]], e)
+		subject := f[1]
+		if f[0] == "upsert" || f[0] == "delete" {
+			subject += " key " + strings.SplitN(f[2], "=", 2)[0]
+		}
+		per[subject] = append(per[subject], e)
 	}
 	wd.w.mu.Unlock()
-	for _, id := range ids {
-		fmt.Fprintf(&b, "watcher about %s: %s\n", id, strings.Join(per[id], " | "))
+	var subjects []string
+	for k := range per {
+		subjects = append(subjects, k)
+	}
+	sort.Strings(subjects)
+	for _, k := range subjects {
+		fmt.Fprintf(&b, "watcher about %s: %s\n", k, strings.Join(per[k], " | "))
 	}
 	return b.String()
 }
@@ -171,7 +194,7 @@ func TestC20Window(t *testing.T) { windowTest(t, "C20", "TestC20Window") }
 func TestC04Window(t *testing.T) { windowTest(t, "C04", "TestC04Window") }
 
 func windowTest(t *testing.T, prop, name string) {
-	vlib.SetRule(prop, name, "schedule-owning test of one real gossip state with a scripted failure detector and a recording watcher: 1-3 peers with drawn histories (writes, deletions, compaction, leave) are learned, a liveness round may mark some unreachable, the peers write more (incl. leaving); then two drawn operations on the observer (liveness evaluation, applying a peer's full or incremental delta, expiry sweep, a local write) are overlapped: the first is parked at a drawn call-out (k-th call to the failure detector or the watcher) while the second runs on another goroutine for up to 20 ms; oracle: the final state view (per node version, left, unreachable, expiry set, entries) and the watcher's notification sequence about each node equal those of running the two operations sequentially in one of the two orders on identically built copies; non-trivial = the first operation reached the parking point and the two sequential orders differ")
+	vlib.SetRule(prop, name, "schedule-owning test of one real gossip state with a scripted failure detector and a recording watcher: 1-3 peers with drawn histories (writes, deletions, compaction, leave) are learned, a liveness round may mark some unreachable, the peers write more (incl. leaving); then two drawn operations on the observer (liveness evaluation, applying a peer's full or incremental delta or an older full delta of it that is still in flight, expiry sweep, a local write) are overlapped: the first is parked at a drawn call-out (k-th call to the failure detector or the watcher) while the second runs on another goroutine for up to 20 ms; oracle: the final state view (per node version, left, unreachable, expiry set, entries) and the watcher's notification sequences (per node for membership events, per node and key for key events) equal those of running the two operations sequentially in one of the two orders on identically built copies; non-trivial = the first operation reached the parking point and the two sequential orders differ")
 	vlib.Run(t, prop, func(c *vlib.Case) {
 		p := &winPlan{peers: c.Int("peers", 1, 3)}
 		drawWrites := func(tag string, n int, allowLeave bool) []winPeerWrite {
@@ -195,12 +218,12 @@ func windowTest(t *testing.T, prop, name string) {
 		}
 		p.warmLive = c.Bool("warmLiveness")
 		for i := 0; i < p.peers; i++ {
-			p.late = append(p.late, drawWrites("late", c.Int("lateWrites", 0, 4), true))
+			p.late = append(p.late, drawWrites("late", c.Int("lateWrites", 0, 6), true))
 			p.levels1 = append(p.levels1, 100*c.Pick("suspect1", 2))
 		}
 		ops := []string{"liveness", "expire", "local"}
 		for i := 0; i < p.peers; i++ {
-			ops = append(ops, fmt.Sprintf("apply:%d", i), fmt.Sprintf("applynew:%d", i))
+			ops = append(ops, fmt.Sprintf("apply:%d", i), fmt.Sprintf("applynew:%d", i), fmt.Sprintf("applymid:%d", i))
 		}
 		weights := make([]int, len(ops))
 		for i := range weights {
@@ -210,6 +233,16 @@ func windowTest(t *testing.T, prop, name string) {
 		p.op1 = c.Weighted("op1", ops, weights)
 		p.op2 = c.Weighted("op2", ops, weights)
 		p.parkAt = c.Int("parkAt", 0, 5)
+		if c.Chance("staleDeltaInFlight", 1, 3) {
+			// directed shape: an older delta of a peer is being applied while a newer one arrives
+			i := c.Pick("stalePeer", p.peers)
+			p.op1, p.op2 = fmt.Sprintf("applymid:%d", i), fmt.Sprintf("apply:%d", i)
+			if c.Bool("newerFirst") {
+				p.op1, p.op2 = p.op2, p.op1
+			}
+			p.parkAt = c.Int("staleParkAt", 0, 2)
+			c.Class("stale-delta-in-flight")
+		}
 		c.Header["plan"] = fmt.Sprintf("%+v", *p)
 
 		seq := func(a, b string) string {
